@@ -36,7 +36,7 @@
 EXTENDS WirePrims
 
 CONSTANTS PVs,            \* protocol versions enumerated (the composite layer only distinguishes < 3 and >= 3)
-          Families,       \* subset of {"scalar","list","set","map","tuple","udt","vector","nest2","nest3","range"}
+          Families,       \* subset of {"scalar","list","set","map","tuple","udt","vector","nest2","nest3","range","tz"}
           TopScalars,     \* scalar types enumerated alone, with their full boundary alphabet
           ElemScalars,    \* element types of depth-1 lists / sets
           KeyScalars, ValScalars,   \* depth-1 maps
@@ -375,9 +375,10 @@ T_nest3 == {ListOf(t) : t \in Inner2} \cup {MapOf(TText, t) : t \in Inner2} \cup
            \cup {UdtOf(<<t, TInt>>) : t \in Inner2} \cup {VecOf(t, 2) : t \in Inner2}
 Pick(f, S) == IF f \in Families THEN S ELSE {}
 RangeSeed == <<"range">>
+TzSeed    == <<"tz">>
 Types == Pick("scalar", {Sc(s) : s \in TopScalars}) \cup Pick("list", T_list) \cup Pick("set", T_set) \cup Pick("map", T_map)
          \cup Pick("tuple", T_tuple) \cup Pick("udt", T_udt) \cup Pick("vector", T_vector)
-         \cup Pick("nest2", T_nest2) \cup Pick("nest3", T_nest3) \cup Pick("range", {RangeSeed})
+         \cup Pick("nest2", T_nest2) \cup Pick("nest3", T_nest3) \cup Pick("range", {RangeSeed}) \cup Pick("tz", {TzSeed})
 
 \* what a protocol version can carry at the top level: no null element in a v1/v2 collection ([short] lengths are
 \* unsigned); vectors exist only in Cassandra releases that speak v3+ (nested ones are always in the >= 3 format)
@@ -401,6 +402,27 @@ Wrap(w, n, x) == CASE w = "top"    -> <<Sc(n), x>>
                    [] w = "udt"    -> <<UdtOf(<<Sc(n), TText>>), <<Some(x), None>>>>
                    [] w = "mapval" -> <<MapOf(TInt, Sc(n)), <<<<Some(1), Some(x)>>>>>>
 
+\* ------------------------------------------------------------------ timestamps given as wall clock + UTC offset
+\* A timestamp is the number of milliseconds since 1970-01-01T00:00Z of an INSTANT (TimestampSerializer: a long).  A
+\* client may hand the driver the instant as a wall-clock reading together with the UTC offset it was read at (Python:
+\* a timezone-aware datetime); the instant is wall - offset.  A reading without offset ("naive") is taken as UTC - the
+\* driver's documented convention.  x = [wall |-> ms of the wall-clock fields since 1970-01-01T00:00, aware |-> BOOLEAN,
+\* off |-> UTC offset in ms].  Numbers stay near the epoch: calendar arithmetic over large ranges is out of scope.
+Walls    == {0, 1000, 86400123, -1000}
+Offsets  == {0, 19800000, -28800000}                      \* UTC, +05:30, -08:00
+Readings == {[wall |-> w, aware |-> FALSE, off |-> 0] : w \in Walls} \cup {[wall |-> w, aware |-> TRUE, off |-> o] : w \in Walls, o \in Offsets}
+Instant(x) == IF x.aware THEN x.wall - x.off ELSE x.wall
+TTs == Sc("timestamp")
+\* <<type, value as given (readings), the same value with every reading replaced by its instant>>
+TzShapes ==
+    {<<TTs, x, Instant(x)>> : x \in Readings}
+    \cup {<<ListOf(TTs), <<Some(x)>>, <<Some(Instant(x))>>>> : x \in Readings}
+    \cup {<<ListOf(TTs), <<Some(x), Some(y)>>, <<Some(Instant(x)), Some(Instant(y))>>>> : x, y \in Readings}
+    \cup {<<MapOf(TTs, TInt), <<<<Some(x), Some(1)>>>>, <<<<Some(Instant(x)), Some(1)>>>>>> : x \in Readings}
+    \cup UNION {{<<MapOf(TTs, TInt), <<<<Some(x), Some(1)>>, <<Some(y), Some(-1)>>>>,
+                    <<<<Some(Instant(x)), Some(1)>>, <<Some(Instant(y)), Some(-1)>>>>>> :
+                      y \in {r \in Readings : Instant(r) # Instant(x)}} : x \in Readings}    \* distinct instants are distinct keys
+
 -----------------------------------------------------------------------------
 VARIABLES ty, pv, val, enc, img, norm, expect
 vars == <<ty, pv, val, enc, img, norm, expect>>
@@ -408,7 +430,7 @@ vars == <<ty, pv, val, enc, img, norm, expect>>
 Init == /\ ty \in Types
         /\ pv = 0 /\ val = <<>> /\ enc = <<>> /\ img = {} /\ norm = <<>> /\ expect = "seed"
 
-Case == /\ expect = "seed" /\ ty # RangeSeed
+Case == /\ expect = "seed" /\ ty \notin {RangeSeed, TzSeed}
         /\ \E p \in PVs, v \in Vals(ty, 0, FALSE) :
               /\ Admissible(ty, v, p)
               /\ pv' = p /\ val' = v
@@ -430,13 +452,22 @@ RangeCase == /\ expect = "seed" /\ ty = RangeSeed
 \* A result cell that is null ([bytes] of length -1) or empty (length 0).  Null is null for every type.  An empty cell is
 \* the empty string for the string-like types; for every other type the driver documents that it "normally returns None"
 \* (cqltypes: support_empty_values) - the legacy Thrift "empty" value.
-CellCase == /\ expect = "seed" /\ ty # RangeSeed
+CellCase == /\ expect = "seed" /\ ty \notin {RangeSeed, TzSeed}
             /\ \E p \in PVs, k \in {"null", "empty"} :
                   /\ pv' = p /\ expect' = k
                   /\ norm' = IF k = "empty" /\ IsScalar(ty) /\ Kind(ty) \in {"text", "ascii", "blob"} THEN Some(<<>>) ELSE None
                   /\ UNCHANGED <<ty, val, enc, img>>
 
-Next == Case \/ RangeCase \/ CellCase
+\* val keeps the readings as given; the bytes, and what comes back (a naive UTC reading), are those of the instants
+TzCase == /\ expect = "seed" /\ ty = TzSeed
+          /\ \E p \in PVs, sh \in TzShapes :
+                /\ pv' = p /\ ty' = sh[1] /\ val' = sh[2]
+                /\ enc' = Enc(sh[1], sh[3], p)
+                /\ img' = Image(sh[1], sh[3], p)
+                /\ norm' = Norm(sh[1], sh[3])
+                /\ expect' = "ok"
+
+Next == Case \/ RangeCase \/ CellCase \/ TzCase
 Spec == Init /\ [][Next]_vars
 
 -----------------------------------------------------------------------------
@@ -475,6 +506,8 @@ RaiseJustified ==
                             Wrap(w, n, x) = <<ty, val>> /\ ~InRange(RangeBits(n), x)
 
 \* ------------------------------------------------------------------ vacuity witnesses (TLC must VIOLATE each)
+\* a reading with an offset is encoded as its instant: the same bytes as the naive reading of wall - offset
+Witness_AwareOffset == ~(expect = "ok" /\ ty = TTs /\ val \in Readings /\ val.aware /\ val.off # 0 /\ Signed(SubSeq(enc, 5, 8)) # val.wall)
 Witness_NullField   == ~(expect = "ok" /\ ~IsScalar(ty) /\ Kind(ty) = "tuple" /\ \E i \in 1..Len(val) : val[i] = None)
 Witness_ShortUdt    == ~(expect = "ok" /\ Cardinality(img) > 1)
 Witness_V2Width     == ~(expect = "ok" /\ pv < 3 /\ ~IsScalar(ty) /\ Kind(ty) = "list" /\ Len(val) > 0)
